@@ -106,7 +106,7 @@ def storedNum : Nat → Nat
 
 /-! ## Durable state -/
 
-structure BlockDB where
+@[ext] structure BlockDB where
   version : Bool
   current : Option (Hash × Nat)
   hashAt : Nat → Option Hash
@@ -115,7 +115,7 @@ structure BlockDB where
   /-- stored header-index batches, concatenated -/
   indexList : List Hash
 
-structure StateDB where
+@[ext] structure StateDB where
   current : Option (Hash × Nat)
   blockTree : Option (List Bytes)
   stateTree : Option (List Bytes)
@@ -123,12 +123,12 @@ structure StateDB where
   crossAt : Nat → Option (List Hash × Hash)
   kv : Bytes → Option Bytes
 
-structure EventDB where
+@[ext] structure EventDB where
   current : Option (Hash × Nat)
   notifyAt : Hash → Option Bool
   byBlock : Nat → Option (List Hash)
 
-structure Durable where
+@[ext] structure Durable where
   blocks : BlockDB
   states : StateDB
   events : EventDB
@@ -188,7 +188,7 @@ def EventDB.commit (db : EventDB) (ws : List EWrite) : EventDB := ws.foldl Event
 
 /-! ## In-memory state of `LedgerStoreImp` + `StateStore` -/
 
-structure Mem where
+@[ext] structure Mem where
   currHeight : Nat
   currHash : Hash
   headerIndex : Nat → Option Hash
@@ -204,7 +204,7 @@ structure Mem where
   /-- write position of the hash file, in hashes -/
   filePos : Nat
 
-structure State where
+@[ext] structure State where
   dur : Durable
   mem : Mem
 
@@ -288,34 +288,56 @@ def executeBlock (p : Params) (s : State) (b : Block) : ExecResult × Hash :=
   let res := p.exec s.dur.states.kv b
   (res, treeRoot p (s.mem.stateTree ++ [res.changeHash]))
 
-/-- `saveBlockToBlockStore` -/
-def fillBlock (p : Params) (m : Mem) (b : Block) : List BWrite × Mem :=
-  let m1 := setIndex m b.header.height b.header.hash
-  let (w0, m2) :=
-    if m1.currHeight - m1.storedIndexCount < p.batch then (([] : List BWrite), m1)
-    else ([BWrite.indexBatch m1.storedIndexCount
-            ((List.range p.batch).map fun i => (m1.headerIndex (m1.storedIndexCount + i)).getD zeroHash)],
-          { m1 with storedIndexCount := m1.storedIndexCount + p.batch })
-  (w0 ++ [.current b.header.hash b.header.height, .blockHash b.header.height b.header.hash, .block b], m2)
+/-- `saveHeaderIndexList`: once `HEADER_INDEX_BATCH_SIZE` block hashes are not yet stored as a batch, the next
+batch is written (the comparison uses the block height before this block) -/
+def indexWrites (p : Params) (m : Mem) : List BWrite :=
+  if m.currHeight - m.storedIndexCount < p.batch then []
+  else [BWrite.indexBatch m.storedIndexCount
+          ((List.range p.batch).map fun i => (m.headerIndex (m.storedIndexCount + i)).getD zeroHash)]
 
-/-- `saveBlockToStateStore`: notifications go to the event batch, the two accumulators are appended in memory
-(the block accumulator also appends to the hash file), then the state batch is filled -/
-def fillState (p : Params) (m : Mem) (fileLen : Nat) (b : Block) (res : ExecResult) :
-    List SWrite × List EWrite × Mem × Nat :=
-  let ew := if p.eventLog then res.notifies.map fun n => EWrite.notify n.1 n.2 else []
-  let st := (if b.header.height = 0 then [] else m.stateTree) ++ [res.changeHash]
-  let bt := m.blockTree ++ [b.header.prev]
-  let pos := m.filePos + appendCount m.blockTree.length
-  let sw := [SWrite.stateTree st, .stateRoot b.header.height res.changeHash (treeRoot p st), .blockTree bt,
-             .current b.header.hash b.header.height]
-            ++ (if res.crossHashes.isEmpty then [] else [SWrite.cross b.header.height res.crossHashes (accRoot p.H res.crossHashes)])
-            ++ res.writeSet.map fun kv => SWrite.raw kv.1 kv.2
-  (sw, ew, { m with stateTree := st, blockTree := bt, filePos := pos }, max fileLen pos)
+def indexMem (p : Params) (m : Mem) : Mem :=
+  if m.currHeight - m.storedIndexCount < p.batch then m
+  else { m with storedIndexCount := m.storedIndexCount + p.batch }
+
+/-- `saveBlockToBlockStore`: the block batch in write order -/
+def blockBatch (p : Params) (m : Mem) (b : Block) : List BWrite :=
+  indexWrites p (setIndex m b.header.height b.header.hash)
+  ++ [.current b.header.hash b.header.height, .blockHash b.header.height b.header.hash, .block b]
+
+/-- in-memory effect of `saveBlockToBlockStore` -/
+def fillBlockMem (p : Params) (m : Mem) (b : Block) : Mem := indexMem p (setIndex m b.header.height b.header.hash)
+
+/-- the accumulators after `saveBlockToStateStore` appended this block (the state accumulator restarts at the
+state-hash check height, which is 0 for a file-backed store) -/
+def newStateTree (st : List Bytes) (b : Block) (res : ExecResult) : List Bytes :=
+  (if b.header.height = 0 then [] else st) ++ [res.changeHash]
+def newBlockTree (bt : List Bytes) (b : Block) : List Bytes := bt ++ [b.header.prev]
+
+/-- the state batch of `saveBlockToStateStore` in write order -/
+def stateBatch (p : Params) (st bt : List Bytes) (b : Block) (res : ExecResult) : List SWrite :=
+  [SWrite.stateTree (newStateTree st b res),
+   .stateRoot b.header.height res.changeHash (treeRoot p (newStateTree st b res)),
+   .blockTree (newBlockTree bt b),
+   .current b.header.hash b.header.height]
+  ++ (if res.crossHashes.isEmpty then [] else [SWrite.cross b.header.height res.crossHashes (accRoot p.H res.crossHashes)])
+  ++ res.writeSet.map fun kv => SWrite.raw kv.1 kv.2
+
+/-- `SaveNotify` of every transaction (first thing `saveBlockToStateStore` does; goes to the event batch) -/
+def notifyBatch (p : Params) (res : ExecResult) : List EWrite :=
+  if p.eventLog then res.notifies.map fun n => EWrite.notify n.1 n.2 else []
 
 /-- `saveBlockToEventStore` -/
 def fillEvent (b : Block) : List EWrite :=
   (if b.txs.isEmpty then [] else [EWrite.byBlock b.header.height (b.txs.map (·.hash))])
   ++ [.current b.header.hash b.header.height]
+
+def eventBatch (p : Params) (b : Block) (res : ExecResult) : List EWrite := notifyBatch p res ++ fillEvent b
+
+/-- in-memory effect of `saveBlockToStateStore`: both accumulators are appended, the block accumulator also
+appends its new nodes to the hash file -/
+def fillMem (m : Mem) (b : Block) (res : ExecResult) : Mem :=
+  { m with stateTree := newStateTree m.stateTree b res, blockTree := newBlockTree m.blockTree b,
+           filePos := m.filePos + appendCount m.blockTree.length }
 
 structure Filled where
   bw : List BWrite
@@ -325,9 +347,8 @@ structure Filled where
   fileLen : Nat
 
 def fillAll (p : Params) (s : State) (b : Block) (res : ExecResult) : Filled :=
-  let (bw, m1) := fillBlock p s.mem b
-  let (sw, ew1, m2, fl) := fillState p m1 s.dur.fileLen b res
-  ⟨bw, sw, ew1 ++ fillEvent b, m2, fl⟩
+  let m2 := fillMem (fillBlockMem p s.mem b) b res
+  ⟨blockBatch p s.mem b, stateBatch p s.mem.stateTree s.mem.blockTree b res, eventBatch p b res, m2, max s.dur.fileLen m2.filePos⟩
 
 /-- durable state after the first `k` commits of `submitBlock` (block, event, state — in this order);
 the hash file has been appended during the fill in every case -/
@@ -431,9 +452,10 @@ def recoverOne (p : Params) (acc : Durable × Mem) (i : Nat) : Except Err (Durab
     | none => .error .other
     | some b =>
       let res := p.exec d.states.kv b
-      let (sw, ew1, m', fl) := fillState p m d.fileLen b res
-      let ew := ew1 ++ fillEvent b
-      .ok ({ d with events := d.events.commit ew, states := d.states.commit sw, fileLen := fl }, m')
+      let m' := fillMem m b res
+      .ok ({ d with events := d.events.commit (eventBatch p b res),
+                    states := d.states.commit (stateBatch p m.stateTree m.blockTree b res),
+                    fileLen := max d.fileLen m'.filePos }, m')
 
 /-- `recoverStore` (fixed loop bounds: blocks stateHeight+1 … blockHeight) -/
 def recoverStore (p : Params) (d : Durable) (m : Mem) : Except Err (Durable × Mem) :=
@@ -470,31 +492,35 @@ def initGenesis (p : Params) (d : Durable) (bt st : List Bytes) (pos : Nat) (g :
   | .error e => .error e
   | .ok s1 => .ok { s1 with dur := { s1.dur with blocks := { s1.dur.blocks with version := true } } }
 
+/-- `init()` of an initialised ledger: `loadCurrentBlock`, `loadHeaderIndexList`, `recoverStore` -/
+def resume (p : Params) (d : Durable) (bt st : List Bytes) (pos : Nat) : Except Err State :=
+  match d.blocks.current with
+  | none => .error .other
+  | some (ch, chh) =>
+    match loadIndex d.blocks chh with
+    | .error e => .error e
+    | .ok (idx, cnt, stored) =>
+      match recoverStore p d { emptyMem with currHeight := chh, currHash := ch, headerIndex := idx, headerCount := cnt,
+                                             storedIndexCount := stored, blockTree := bt, stateTree := st, filePos := pos } with
+      | .error e => .error e
+      | .ok (d', m1) => .ok { dur := d', mem := m1 }
+
+/-- both validator sets are taken from the current header -/
+def withPeers (s : State) : Except Err State :=
+  match loadPeers s.dur s.mem with
+  | .error e => .error e
+  | .ok set => .ok { s with mem := { s.mem with peersH := set, peersB := set } }
+
 /-- `NewLedgerStore(dir)` + `InitLedgerStoreWithGenesisBlock(genesis)` on the durable state `d` -/
 def reopen (p : Params) (g : Block) (d : Durable) : Except Err State :=
   match openState d with
   | .error e => .error e
   | .ok (bt, st, pos) =>
-    let r : Except Err State :=
-      if !d.blocks.version then initGenesis p d bt st pos g
-      else if (d.blocks.blockAt g.header.hash).isNone then .error .genesis
-      else match d.blocks.current with
-        | none => .error .other
-        | some (ch, chh) =>
-          match loadIndex d.blocks chh with
-          | .error e => .error e
-          | .ok (idx, cnt, stored) =>
-            let m0 : Mem := { emptyMem with currHeight := chh, currHash := ch, headerIndex := idx, headerCount := cnt,
-                                            storedIndexCount := stored, blockTree := bt, stateTree := st, filePos := pos }
-            match recoverStore p d m0 with
-            | .error e => .error e
-            | .ok (d', m1) => .ok { dur := d', mem := m1 }
-    match r with
+    match (if !d.blocks.version then initGenesis p d bt st pos g
+           else if (d.blocks.blockAt g.header.hash).isNone then .error .genesis
+           else resume p d bt st pos) with
     | .error e => .error e
-    | .ok s =>
-      match loadPeers s.dur s.mem with
-      | .error e => .error e
-      | .ok set => .ok { s with mem := { s.mem with peersH := set, peersB := set } }
+    | .ok s => withPeers s
 
 /-- a fresh directory -/
 def initLedger (p : Params) (g : Block) : Except Err State := reopen p g Durable.empty
